@@ -21,7 +21,7 @@ import (
 // unchanged file stores the same blob.
 
 func init() {
-	fw.Register(&fw.Check{ID: "C31", Level: "exploration", Run: runC31, QuickBudget: 90, ThoroughBudget: 1200})
+	fw.Register(&fw.Check{ID: "C31", Level: "exploration", Run: runC31, QuickBudget: 150, ThoroughBudget: 1200})
 }
 
 var c31Modes = []string{"true", "input", "false"}
